@@ -19,6 +19,7 @@ import sys
 import tempfile
 from pathlib import Path
 
+REPO = os.environ.get("VERIF_REPO", "/repo")
 PROPERTY_ID = "C20"
 LEVEL = "fault_enumeration"
 RULE = (
@@ -382,7 +383,7 @@ def corruption_part(ctx) -> None:
                 if ctx.mine(idx):
                     corrupted_cache_case(ctx, data[:cut], ("prefix", di, cut), d)
         ctx.exhaustive_parts["every byte prefix of every small cache document"] = True
-        fixture = (Path("/repo/tests/fixtures/ecobee3.json")).read_bytes()
+        fixture = (Path(REPO) / "tests/fixtures/ecobee3.json").read_bytes()
         big = b'{"pairings":{"aa:bb":{"config_num":1,"accessories":' + fixture + b',"broadcast_key":null,"state_num":null}}}'
         for cut in range(0, len(big), max(1, len(big) // ctx.pick(40, 400))):
             idx += 1
@@ -536,7 +537,8 @@ def crash_part(ctx) -> None:
 
 CHILD = r"""
 import sys, json, copy
-sys.path[:0] = ['/verif', '/repo']
+import os
+sys.path[:0] = ['/verif', os.environ.get('VERIF_REPO', '/repo')]
 import asyncio
 from vf.props import c20
 async def main():
@@ -575,7 +577,7 @@ def strace_part(ctx) -> None:
             return o, loaded(c)
 
         old_loaded, new_loaded = asyncio.run(prep())
-        env = dict(os.environ, PYTHONPATH="/repo:/verif", PYTHONDONTWRITEBYTECODE="1")
+        env = dict(os.environ, PYTHONPATH=f"{REPO}:/verif", PYTHONDONTWRITEBYTECODE="1")
         calls = "openat,write,fsync,fdatasync,close,rename,renameat,renameat2,unlink,unlinkat,ftruncate"
         tr = subprocess.run(["strace", "-f", "-P", path, "-P", path + ".tmp", "-e", f"trace={calls}", "-o", os.path.join(d, "trace.txt"), sys.executable, child, path, newfile],
                             env=env, capture_output=True, text=True, timeout=120)
@@ -623,7 +625,7 @@ async def _async_parts(ctx) -> None:
     for idx in range(ctx.pick(1500, 20000)):
         if ctx.mine(idx):
             pairing_roundtrip(ctx, ctx.grng("C20.A", idx), idx)
-    fixtures = sorted(Path("/repo/tests/fixtures").glob("*.json"))
+    fixtures = sorted(Path(REPO) / "tests/fixtures".glob("*.json"))
     fi = 0
     for f in fixtures:
         try:
@@ -658,7 +660,7 @@ def replay(ctx, d) -> None:
             label = d["label"]
             if label.startswith("fixture:"):
                 _, name, transport = label.split(":")
-                em = json.loads((Path("/repo/tests/fixtures") / name).read_text())
+                em = json.loads((Path(REPO) / "tests/fixtures" / name).read_text())
                 database_roundtrip(ctx, em, label, ctx.grng("C20.B.fix", name, transport), transport)
             else:
                 idx = int(label.split(":")[1])
